@@ -89,7 +89,7 @@ def Db.discardAtOrBelow (d : Db) : Nat :=
 /-- `newTransaction`: `readTs = nextTxnTs - 1`, `readMark.Begin(readTs)` (normal mode). -/
 def Db.begin (d : Db) (id : Nat) (update : Bool) (managedTs : Nat) : Db × Nat :=
   let rts := if d.opts.managed then managedTs else d.nextTs - 1
-  let t : TxnM := { id, readTs := rts, update, size := txnKeyLen + 10 }
+  let t : TxnM := { id, readTs := rts, update, size := txnKeyLen + 30 }
   let d := if d.opts.managed then d else { d with readMark := d.readMark.begin rts }
   (d.setTxn t, rts)
 
@@ -198,8 +198,10 @@ def Db.commit (d : Db) (id : Nat) (managedTs : Nat) : Db × CommitRes :=
     if t.pending.isEmpty then (d.discardTxn id, .noop)
     else if t.discarded then (d, .err "err:discarded")
     else
+      -- `commitPrecheck` looks at `pendingWrites` only; `commitAndSend` at both lists
+      let keepTogetherPre := t.pending.all (·.ver == 0)
       let keepTogether := (t.pending ++ t.dups).all (·.ver == 0)
-      if keepTogether && d.opts.managed && managedTs == 0 then (d, .err "err:zerocommitts")
+      if keepTogetherPre && d.opts.managed && managedTs == 0 then (d, .err "err:zerocommitts")
       else if d.opts.detectConflicts && d.hasConflict t then (d.discardTxn id, .conflict)
       else
         let (d, t) := d.doneRead t
